@@ -32,7 +32,7 @@ def gen_prog(rng, depth, budget):
     if depth > 0 and r < 0.45:
         k = rng.randrange(3)
         v = rng.randrange(1 if k == 0 else 0, NVAL[k])
-        form = rng.choice(["with", "with", "deco"])
+        form = rng.choice(["with", "with", "deco", "predeco", "premgr"])
         return ["Block", k, v, gen_list(rng, depth - 1, budget), form]
     if depth > 0 and r < 0.60:
         return ["Try", gen_list(rng, depth - 1, budget)]
@@ -189,6 +189,19 @@ class Impl:
         """Returns (final state, outcome, log, restore_violations, behaviour_violations)."""
         self.reset()
         log, viol, bviol = [], [], []
+        # managers / decorators created up front (at the initial settings) and entered later, possibly inside other blocks
+        pre = {}
+
+        def prepare(l):
+            for p in l:
+                if p[0] == "Block":
+                    if p[4] in ("predeco", "premgr"):
+                        pre[id(p)] = self.cm(p[1], p[2])
+                    prepare(p[3])
+                elif p[0] == "Try":
+                    prepare(p[1])
+
+        prepare(prog)
 
         def ex_list(l):
             for p in l:
@@ -203,6 +216,15 @@ class Impl:
                     if form == "with":
                         with self.cm(k, v):
                             ex_list(body)
+                    elif form == "premgr":
+                        with pre[id(p)]:
+                            ex_list(body)
+                    elif form == "predeco":
+                        @pre[id(p)]
+                        def g():
+                            ex_list(body)
+
+                        g()
                     else:
                         @self.cm(k, v)
                         def f():
@@ -309,6 +331,7 @@ def run(run: Run) -> int:
         hist["outcome"][out.split()[0]] = hist["outcome"].get(out.split()[0], 0) + 1
         hist["forms"]["with"] += key.count("'with'")
         hist["forms"]["deco"] += key.count("'deco'")
+        hist["forms"]["pre-created"] = hist["forms"].get("pre-created", 0) + key.count("'predeco'") + key.count("'premgr'")
         if viol:
             n_restore_bad += 1
             small = shrink(prog, lambda c: bool(impl.run(c)[3]))
